@@ -136,9 +136,6 @@ Props/C11.vos Props/C11.vok Props/C11.required_vos: Props/C11.v Base.vos Units.v
 Props/C12.vo Props/C12.glob Props/C12.v.beautified Props/C12.required_vo: Props/C12.v Base.vo Units.vo UnitsThm.vo Contents.vo Container.vo ContainerThm.vo ContainerThm2.vo Dilute.vo Solve.vo SolveThm.vo CsfThm.vo HistoryThm.vo
 Props/C12.vio: Props/C12.v Base.vio Units.vio UnitsThm.vio Contents.vio Container.vio ContainerThm.vio ContainerThm2.vio Dilute.vio Solve.vio SolveThm.vio CsfThm.vio HistoryThm.vio
 Props/C12.vos Props/C12.vok Props/C12.required_vos: Props/C12.v Base.vos Units.vos UnitsThm.vos Contents.vos Container.vos ContainerThm.vos ContainerThm2.vos Dilute.vos Solve.vos SolveThm.vos CsfThm.vos HistoryThm.vos
-Props/C17.vo Props/C17.glob Props/C17.v.beautified Props/C17.required_vo: Props/C17.v Base.vo Units.vo Contents.vo Container.vo ContainerThm.vo ContainerThm2.vo Plate.vo PlateThm.vo
-Props/C17.vio: Props/C17.v Base.vio Units.vio Contents.vio Container.vio ContainerThm.vio ContainerThm2.vio Plate.vio PlateThm.vio
-Props/C17.vos Props/C17.vok Props/C17.required_vos: Props/C17.v Base.vos Units.vos Contents.vos Container.vos ContainerThm.vos ContainerThm2.vos Plate.vos PlateThm.vos
 Props/C18.vo Props/C18.glob Props/C18.v.beautified Props/C18.required_vo: Props/C18.v Base.vo Units.vo UnitsThm.vo Contents.vo Container.vo ContainerThm.vo ContainerThm2.vo Plate.vo ConfigThm.vo
 Props/C18.vio: Props/C18.v Base.vio Units.vio UnitsThm.vio Contents.vio Container.vio ContainerThm.vio ContainerThm2.vio Plate.vio ConfigThm.vio
 Props/C18.vos Props/C18.vok Props/C18.required_vos: Props/C18.v Base.vos Units.vos UnitsThm.vos Contents.vos Container.vos ContainerThm.vos ContainerThm2.vos Plate.vos ConfigThm.vos
@@ -157,6 +154,9 @@ Props/C16.vos Props/C16.vok Props/C16.required_vos: Props/C16.v Base.vos GenBase
 Props/C08.vo Props/C08.glob Props/C08.v.beautified Props/C08.required_vo: Props/C08.v Base.vo Units.vo Contents.vo Container.vo Dilute.vo Solve.vo Plate.vo Prog.vo Recipe.vo RecipeThm.vo
 Props/C08.vio: Props/C08.v Base.vio Units.vio Contents.vio Container.vio Dilute.vio Solve.vio Plate.vio Prog.vio Recipe.vio RecipeThm.vio
 Props/C08.vos Props/C08.vok Props/C08.required_vos: Props/C08.v Base.vos Units.vos Contents.vos Container.vos Dilute.vos Solve.vos Plate.vos Prog.vos Recipe.vos RecipeThm.vos
+Props/C17.vo Props/C17.glob Props/C17.v.beautified Props/C17.required_vo: Props/C17.v Base.vo Units.vo Contents.vo Container.vo ContainerThm.vo ContainerThm2.vo Plate.vo PlateThm.vo Dilute.vo Solve.vo Prog.vo HistoryThm.vo Recipe.vo RecipeThm.vo C09Thm.vo
+Props/C17.vio: Props/C17.v Base.vio Units.vio Contents.vio Container.vio ContainerThm.vio ContainerThm2.vio Plate.vio PlateThm.vio Dilute.vio Solve.vio Prog.vio HistoryThm.vio Recipe.vio RecipeThm.vio C09Thm.vio
+Props/C17.vos Props/C17.vok Props/C17.required_vos: Props/C17.v Base.vos Units.vos Contents.vos Container.vos ContainerThm.vos ContainerThm2.vos Plate.vos PlateThm.vos Dilute.vos Solve.vos Prog.vos HistoryThm.vos Recipe.vos RecipeThm.vos C09Thm.vos
 Props/C09.vo Props/C09.glob Props/C09.v.beautified Props/C09.required_vo: Props/C09.v Base.vo Units.vo Contents.vo Container.vo ContainerThm.vo ContainerThm2.vo Dilute.vo Solve.vo Plate.vo PlateThm.vo Prog.vo HistoryThm.vo Recipe.vo RecipeThm.vo C09Thm.vo
 Props/C09.vio: Props/C09.v Base.vio Units.vio Contents.vio Container.vio ContainerThm.vio ContainerThm2.vio Dilute.vio Solve.vio Plate.vio PlateThm.vio Prog.vio HistoryThm.vio Recipe.vio RecipeThm.vio C09Thm.vio
 Props/C09.vos Props/C09.vok Props/C09.required_vos: Props/C09.v Base.vos Units.vos Contents.vos Container.vos ContainerThm.vos ContainerThm2.vos Dilute.vos Solve.vos Plate.vos PlateThm.vos Prog.vos HistoryThm.vos Recipe.vos RecipeThm.vos C09Thm.vos
